@@ -51,7 +51,7 @@ func init() {
 func init() {
 	c07Entries := []string{"Spec", "NewSpecValidator", "(*SpecValidator).Validate"}
 	Properties["C07"] = PropSpec{
-		Rules: []Rule{ErrValue, 
+		Rules: []Rule{DeadTailIn("spec.go", "helpers.go", "default_validator.go", "example_validator.go"), ErrValue, 
 			FieldFed,
 			PanicBoundary, CtorRecursion, RefWalk,
 			PanicInventory(c07Entries, []DynEntry{
@@ -83,7 +83,7 @@ func init() {
 func init() {
 	c06Entries := []string{"AgainstSchema", "NewSchemaValidator", "(*SchemaValidator).Validate"}
 	Properties["C06"] = PropSpec{
-		Rules: []Rule{ErrValue, 
+		Rules: []Rule{DeadTailIn("values.go", "validator.go", "schema.go", "schema_props.go", "object_validator.go", "slice_validator.go", "type.go", "formats.go", "result.go"), ErrValue, 
 			FieldFed,
 			ExpandRoot, CtorRecursion,
 			PanicInventory(c06Entries, []DynEntry{{Func: "(*SchemaValidator).Validate", DataArg: 1}}, jsonDomain, "JSON value domain: nil, bool, float64, string, json.Number, []interface{}, map[string]interface{}, int64"),
@@ -113,7 +113,7 @@ func init() {
 
 func init() {
 	Properties["C20"] = PropSpec{
-		Rules:       []Rule{ResultAlgebra, ResLinear, PoolAPI, SchemataModel},
+		Rules:       []Rule{DeadTailIn("result.go"), ResultAlgebra, ResLinear, PoolAPI, SchemataModel},
 		Explanation: "RESULT-ALGEBRA, structural laws checked on SSA rather than by running sequences: each of Merge/MergeAsErrors/MergeAsWarnings/mergeForField/mergeForSlice tests its operand against nil, visits all operands (no return before the loop is exhausted), and applies exactly once per non-nil operand, on every path, the documented matrix of effects (which of AddErrors/AddWarnings receives the operand's Errors and Warnings, MatchCount += operand.MatchCount, resetCaches, redeem under wantsRedeemOnMerge) and no other; AddErrors/AddWarnings only write append(<own list>, e), only on the e != nil edge, guarded by a condition that depends on comparing e.Error() with the Error() of the elements of the same list and that is recomputed per message (backward slice does not cross the outer loop header); IsValid is len(Errors)==0, queries dereference the receiver only when non-nil, Inc adds one; RES-ALIAS: no slice header of Errors/Warnings escapes or enters a Result (only elements are copied), which is what makes later changes to an operand invisible in the merged result; RES-LINEAR: operands are not used after their release. dedupe-every-element: the duplicate search compares the text of every element it visits. Nil-safe queries: every exported niladic method of *Result tolerates a nil receiver (four did not: fixed). SCHEMATA-MODEL (the schemata containers cloned on merge: a clone shares no schema object and no backing array with its original).",
 		NotDecided:  "Equivalence with an ordered-set model over arbitrary operation sequences (nothing is executed): the laws above are the structural facts that equivalence rests on. Judgement call found by probing, not decided: a typed-nil error is appended.",
 		Assumptions: []string{"errors.CompositeValidationError copies its arguments (read from errors@v0.22.1)", trustDeps},
@@ -122,7 +122,7 @@ func init() {
 
 func init() {
 	Properties["C03"] = PropSpec{
-		Rules:       []Rule{Setter, DeadTail, RuleSeq, NoDrop, RunState, SpecPred, GuardScope, ArgRole, DefaultsFieldwise, RawAnalyzer, ExpandRoot},
+		Rules:       []Rule{Setter, DeadTailIn("spec.go", "helpers.go", "options.go"), RuleSeq, NoDrop, RunState, SpecPred, GuardScope, ArgRole, DefaultsFieldwise, RawAnalyzer, ExpandRoot},
 		Explanation: "GUARD-SCOPE: every option (StrictPathParamUniqueness, the two swagger strictness switches, skip-schemata) and every path-name exemption predicate of the object validator controls only the effects in its reviewed scope — a rule message or pre-check that becomes control dependent on another option or exemption is reported; SPEC-PRED: for 18 documented rules whose predicate is a conjunction of simple comparisons (path-parameter required/unique/in-path, body-xor-formData, one body parameter, required-property-defined, items present for arrays, duplicate operation ids / parameter names, default response …) the rule's message is control dependent on exactly those comparisons with the right operands and polarity — operands are named structurally (parameter position, declaring type of a field, the conditions under which a flag is set), never by local name — and the path-parameter helpers find placeholders with the placeholder expression in every '/'-segment. RULE-SEQ: every documented rule function is called by (*SpecValidator).Validate and its result is the operand of errs.Merge; every return other than the last is guarded by !Options.ContinueOnErrors && errs.HasErrors(), and the last is dominated by all rule calls. NO-DROP: every *Result produced in spec.go/default_validator.go/example_validator.go/helpers.go is merged, returned, or returned to the pool only where HasErrorsOrWarnings() is false. DEFAULTS-FIELDWISE: the process-wide default options are only changed field by field outside init. RAW-ANALYZER: the analyzer of the document as written is used only to enumerate references, as fallback when no expanded document exists, or at reviewed sites. EXPAND-ROOT: resolution requests are given the validator's document. GUARD-SCOPE exact (the three path-name exemption predicates decided on every run of the router); DEAD-TAIL; SETTER (no setter drops its argument).",
 		NotDecided:  "The predicate inside each rule (value-level). Value-level defects of individual rule functions found by probing and not decided here (DESIGN section 6, findings/hunt/C03): circular-ancestry bookkeeping (diamonds, self-cycles), required vs additionalProperties/allOf, duplicate path-item parameters, ToGoName collisions, literal X overlapping a placeholder.",
 		Assumptions: []string{trustDeps},
@@ -131,7 +131,7 @@ func init() {
 
 func init() {
 	Properties["C10"] = PropSpec{
-		Rules:       []Rule{Setter, MapOrder("(*SpecValidator).Validate"), RuleSeq, ModeUse, WarnNeutral, RunState, ResultAlgebra, PoolCtor, DefaultsFieldwise, InputRO},
+		Rules:       []Rule{DeadTailIn("spec.go", "helpers.go", "result.go", "options.go"), Setter, MapOrder("(*SpecValidator).Validate"), RuleSeq, ModeUse, WarnNeutral, RunState, ResultAlgebra, PoolCtor, DefaultsFieldwise, InputRO},
 		Explanation: "MAP-ORDER: in every function reachable from (*SpecValidator).Validate, a range over a map is left before exhaustion only by pure search loops, and a list filled in map order is sorted before it is rendered into a message (taint propagated through appends, callees' return values and ranges over tainted lists); RULE-SEQ: early returns only under !Options.ContinueOnErrors && errs.HasErrors(), the final return after all rules (so the stop-early run executes a prefix of the same rule sequence: its errors are a subset), warnings bookkeeping deferred before the first rule, options copied per validator and the process-wide default never consulted during validation; WARN-NEUTRAL: no error is added under a test of the warnings of a sub-result that can carry warnings (warnings alone never invalidate); MODE-USE: every read of ContinueOnErrors is consumed by a branch condition of Validate and flows nowhere else (not into a rule, not into the options of a dependency such as the reference expander), so the mode decides when the run stops and never what a rule reports; RUN-STATE: per-run fields of a reused validator are re-initialised; RESULT-ALGEBRA: messages form a text-keyed set (order-insensitive accumulation); POOL-CTOR: spec validation always recycles validators, so a constructor that leaves a field of a borrowed object unassigned on some path makes the outcome depend on what the pool handed out (previous validations, map order, GC). DEFAULTS-FIELDWISE: a package-level setter cannot reset the other defaults (the verdict would depend on the history of setter calls). carried-state: inside a range over a map no message depends on a container the same loop fills as it goes (path overlaps did: fixed by visiting paths in sorted order). SETTER (SetContinueOnErrors stores what it is given).",
 		NotDecided:  "Determinism of the dependencies (analysis, loader); serialisation variants of one document; which member of a cycle a circular-ancestry message names. Found by probing, not decided: the unresolved reference quoted as 'first found' (dependency walk order); the parsed document rewritten by safeExpandedParamsFor when references do not resolve under continue-on-errors.",
 		Assumptions: []string{trustDeps},
@@ -146,7 +146,7 @@ func init() {
 			"PURE:UniqueItems:numeric-equality":                  "same: every number of a decoded document is a float64",
 			"TYPE-TABLE:typeValidator:integrality-tolerance":     "every integer-typed member of a Swagger document is an *int64 of the typed model: a document with a fractional value there does not load",
 		},
-		Rules:       []Rule{OptionsKept, KeyExemption, NilPath, MustPass, RuleSeq, ResultAlgebra, Keywords("SchemaValidator", schemaKeywords, "schema_ctor_calls"), Counting, Orderings, Pure, ArgRole, TypeTable, ObjectRouting, SliceRouting, KeywordRouting, KeywordPred, KeywordGuard, EnumConvert, KConsistent, GuardScope},
+		Rules:       []Rule{DeadTailIn("values.go", "validator.go", "schema.go", "schema_props.go", "object_validator.go", "slice_validator.go", "type.go", "formats.go", "result.go", "spec.go"), OptionsKept, KeyExemption, NilPath, MustPass, RuleSeq, ResultAlgebra, Keywords("SchemaValidator", schemaKeywords, "schema_ctor_calls"), Counting, Orderings, Pure, ArgRole, TypeTable, ObjectRouting, SliceRouting, KeywordRouting, KeywordPred, KeywordGuard, EnumConvert, KConsistent, GuardScope},
 		Explanation: "SCHEMA-PASS clauses shared with C01, because the first pass is the schema validator run on the Swagger schema (anchors object_validator.go, schema_props.go): KEYWORDS — every keyword the Swagger schema uses (type, enum, pattern, min/max*, required, properties, patternProperties for x- extensions, additionalProperties:false, allOf/anyOf/oneOf/not, items, uniqueItems, format) reaches a sub-validator field that is read while validating; MEMBER-GUARD / K-CONSISTENT — every member of every object and array of the document is validated against its schema whatever its name or value (an exemption for a name such as 'id' silently accepts an invalid entry of definitions/properties/headers); KEYWORD-GUARD — no constraint helper is conditioned on the instance; COUNTING — oneOf over the parameter kinds is decided exactly (none / exactly one / several valid); ROUTING — in every configuration of properties / patternProperties / additionalProperties a member is handed to the pattern matcher and, when undeclared and unmatched, to the additionalProperties schema; ENUM-CONVERT. MUST-PASS: in (*SpecValidator).Validate the validation of json.Unmarshal(doc.Raw()) against the validator's Swagger schema, built with the validator's schemaOptions, dominates every other rule and every verdict-returning exit; NewSpecValidator applies SwaggerSchema(true) (both strictness flags) to those options; the result is merged with Merge into the error accumulator (RULE-SEQ) whose errors only grow (RESULT-ALGEBRA / RES-ALIAS: append-only writes); Spec() returns nil exactly on !errs.HasErrors(); each expanded parameter is re-validated against #/definitions/parameter and merged. KEY-EXEMPTION: the forbidden-property error is not control dependent on member names (\"id\" and \"$schema\" are exempt: known finding, the embedded fixture relies on it). NILPATH as for C01 (known finding with Swagger inputs).",
 		NotDecided:  "That the schema pass itself is right for the 1600-line Swagger schema: that is C01 (draft-4 agreement), which is value-level.",
 		Assumptions: []string{trustDeps},
@@ -155,7 +155,7 @@ func init() {
 
 func init() {
 	Properties["C13"] = PropSpec{
-		Rules:       []Rule{MultipleTable, DatumFree, Narrow, Orderings, OrderingsTyped, KeywordPred, Keywords("SchemaValidator", schemaKeywords, "schema_ctor_calls"), Keywords("ParamValidator", simpleKeywords, "param_ctor_calls"), Keywords("HeaderValidator", simpleKeywords, "header_ctor_calls"), Keywords("itemsValidator", simpleKeywords, "items_ctor_calls"), KeywordPosition, HelperField},
+		Rules:       []Rule{DeadTailIn("values.go", "validator.go", "type.go"), MultipleTable, DatumFree, Narrow, Orderings, OrderingsTyped, KeywordPred, Keywords("SchemaValidator", schemaKeywords, "schema_ctor_calls"), Keywords("ParamValidator", simpleKeywords, "param_ctor_calls"), Keywords("HeaderValidator", simpleKeywords, "header_ctor_calls"), Keywords("itemsValidator", simpleKeywords, "items_ctor_calls"), KeywordPosition, HelperField},
 		Explanation: "ORDERINGS: MaximumNativeType/MinimumNativeType/MultipleOfNativeType are evaluated by constant propagation (through reflect.ValueOf, the kind switches, the as* helpers, the exactness guards and the Int/Uint/float comparators) for every Go numeric carrier type × a grid of values × a grid of constraints in halves from -3.5 to 4.5 × exclusive on/off, and must return an error exactly when exact arithmetic says so (arithmetic folded on exact rationals: float rounding is not modelled); the Int/Uint/float comparators and Min/MaxItems, MultipleOfInt/Uint, RequiredNumber agree with their definitions on every ordering of a small grid. NARROW: every numeric ssa.Convert of the package is classified; one that can change the mathematical value (float→integer, signed↔unsigned, narrowing) must be dominated by an integrality test plus a range test of its operand (possibly packaged in a one-parameter predicate of the package, whose true-returning paths are inspected), or be unreachable for every Go numeric carrier type (abstract D-DYN runs from MaximumNativeType/MinimumNativeType/MultipleOfNativeType/IsValueValidAgainstRange/numberValidator.Validate over float32/64, int*, uint*: the as* helpers only take their value-preserving branch). The kind-specific reflect getters are legal for the kinds that reach them (D-DYN). json.Number: Int64() is selected exactly on Type.Contains(integer), Float64() on its negation, and both error edges add an error. NATIVE-DISPATCH: each typed facade, evaluated per Go numeric carrier kind, reaches the comparator of its own exact arithmetic. DATUM-FREE-ERROR and EXACT-ARITH as for C16 (known findings with failing inputs). MULTIPLE-TABLE.",
 		NotDecided:  "Exactness of the float arithmetic itself (MultipleOf's division and IsFloat64AJSONInteger tolerance), values beyond ±2^53, decimal fractions. Found by probing, not decided: json.Number through the parameter/header validators and the *NativeType helpers.",
 		Assumptions: []string{"numbers within ±2^53 (C13), so integer→float64 is exact", "int is 64 bits wide", trustDeps},
@@ -181,7 +181,7 @@ func init() {
 	}
 	anyDomain := append(append([]atom{}, goTypedDomain...), aSliceIface, aMapIface, other(reflect.Struct), other(reflect.Ptr), other(reflect.Map), other(reflect.Bool), other(reflect.Func), other(reflect.Interface))
 	Properties["C14"] = PropSpec{
-		Rules: []Rule{ErrValue, EqualTable, DataWalk, Pure, Orderings, Cow,
+		Rules: []Rule{DeadTailIn("values.go"), ErrValue, EqualTable, DataWalk, Pure, Orderings, Cow,
 			PanicInventory(valueHelpers, helperEntries, anyDomain, "any Go value: nil, every basic kind, named strings, slices, maps, structs, pointers", "no-applies", "helpers"),
 			NilRule(func(p *core.Prog) []*ssa.Parameter {
 				var out []*ssa.Parameter
@@ -204,7 +204,7 @@ func init() {
 
 func init() {
 	Properties["C17"] = PropSpec{
-		Rules:       []Rule{KConsistent, SameDatumPath, OneShot, ResultAlgebra, ResLinear, ArgRole},
+		Rules:       []Rule{DeadTailIn("result.go", "schema.go", "schema_props.go", "object_validator.go", "slice_validator.go"), KConsistent, SameDatumPath, OneShot, ResultAlgebra, ResLinear, ArgRole},
 		Explanation: "K-CONSISTENT — at each of the 7 member-validation sites of the object and slice validators the value that extends the parent's path, the value that selects the member's data and the key under which the child's result is merged are the same SSA value, the parent path is the receiver's Path, and the child validator is constructed with that path (SetPath after construction only re-paths the outer validator; the single-schema `items` site, whose location accuracy C17 does not claim, is the one reviewed exception); the error for a missing required member is named <path>.<k> for the k that was not found; MEMBER-GUARD; ONESHOT-EQ — AgainstSchema returns nil exactly on !res.HasErrors() and otherwise CompositeValidationError(res.Errors...) of the same result; RESULT-ALGEBRA — validity is len(Errors)==0 (an invalid verdict carries at least one error), messages are de-duplicated by text, append-only; RES-ALIAS — the composite copies the errors. RES-LINEAR: the result that will be reported is not released; the superseded one is. SAME-DATUM-PATH: a sub-validator judging the same datum as its parent is built with the parent's path (the schema of a dependency was not: fixed). ARG-ROLE by role: location (path/name) and place (in) never change places between the package and go-openapi/errors.",
 		NotDecided:  "Best-branch selection text for anyOf/oneOf; that every sub-validator uses its own Path in every message; message wording. Found by probing, outside the stated location claim: list items carry no index; swagger-option 'required' errors carry the keyword as name.",
 		Assumptions: []string{trustDeps},
@@ -213,7 +213,7 @@ func init() {
 
 func init() {
 	Properties["C16"] = PropSpec{
-		Rules: []Rule{MultipleTable, DeadTail, ErrValue, EqualTable, DataWalk, DatumFree, Chain, EnumConvert, Keywords("ParamValidator", simpleKeywords, "param_ctor_calls"), Keywords("HeaderValidator", simpleKeywords, "header_ctor_calls"), Keywords("itemsValidator", simpleKeywords, "items_ctor_calls"), KeywordPosition, HelperField, KeywordGuard,
+		Rules: []Rule{MultipleTable, DeadTailIn("validator.go", "values.go", "type.go", "formats.go"), ErrValue, EqualTable, DataWalk, DatumFree, Chain, EnumConvert, Keywords("ParamValidator", simpleKeywords, "param_ctor_calls"), Keywords("HeaderValidator", simpleKeywords, "header_ctor_calls"), Keywords("itemsValidator", simpleKeywords, "items_ctor_calls"), KeywordPosition, HelperField, KeywordGuard,
 			Narrow, Orderings, OrderingsTyped, Pure, TypeTable, AppliesTable, KeywordPred, ArgRole,
 			PanicInventory([]string{"NewParamValidator", "NewHeaderValidator", "(*ParamValidator).Validate", "(*HeaderValidator).Validate"}, []DynEntry{
 				{Func: "(*ParamValidator).Validate", DataArg: 1}, {Func: "(*HeaderValidator).Validate", DataArg: 1}, {Func: "(*itemsValidator).Validate", DataArg: 2},
@@ -223,7 +223,7 @@ func init() {
 		Assumptions: []string{trustDeps},
 	}
 	Properties["C01"] = PropSpec{
-		Rules:       []Rule{MultipleTable, DeadTail, ErrValue, EqualTable, DataWalk, PoolAPI, ExactArith, KeyExemption, Keywords("SchemaValidator", schemaKeywords, "schema_ctor_calls"), NilPath, Counting, Orderings, OrderingsTyped, Pure, ArgRole, TypeTable, AppliesTable, KeywordPosition, HelperField, ObjectRouting, SliceRouting, KeywordRouting, KeywordPred, KeywordGuard, EnumConvert, KConsistent, OneShot, PoolCtor, ResLinear, ResultAlgebra, MapOrder("(*SchemaValidator).Validate", "AgainstSchema")},
+		Rules:       []Rule{MultipleTable, DeadTailIn("values.go", "validator.go", "schema.go", "schema_props.go", "object_validator.go", "slice_validator.go", "type.go", "formats.go", "result.go"), ErrValue, EqualTable, DataWalk, PoolAPI, ExactArith, KeyExemption, Keywords("SchemaValidator", schemaKeywords, "schema_ctor_calls"), NilPath, Counting, Orderings, OrderingsTyped, Pure, ArgRole, TypeTable, AppliesTable, KeywordPosition, HelperField, ObjectRouting, SliceRouting, KeywordRouting, KeywordPred, KeywordGuard, EnumConvert, KConsistent, OneShot, PoolCtor, ResLinear, ResultAlgebra, MapOrder("(*SchemaValidator).Validate", "AgainstSchema")},
 		Explanation: "Structural necessary conditions of draft-4 agreement, decided on every path: KEYWORDS — each of the 27 supported keywords of the schema is handed by newSchemaValidator to a sub-validator constructor, kept (itself or something built from it) in a field, and that field is read by the sub-validator's Validate/Applies (a keyword that is dropped or stored-but-never-read is a skipped constraint); COUNTING — oneOf/allOf are decided exactly by constant-propagating the post-loop region for every value of the counter of valid alternatives (0..3) and number of members, anyOf returns on the first valid alternative and errs after the loop otherwise, not errs exactly on the IsValid() edge of the sub-result, the counter is incremented once per valid alternative; TYPE-TABLE — the `type` keyword is decided exactly on a table of 246 cases (12 data incl. typed Go numbers × 9 type lists × nullable × format): the type validator, evaluated by constant propagation with its own fields bound to constants, returns an error exactly when draft 4 says the type does not match (integral numbers are integers, Go integers are numbers, nullable admits null, a format does not change the verdict of `type` for non-numeric data); APPLIES-TABLE — each group holding kind-specific keywords (string, number, object, array; identified by the schema keyword its constructor receives) admits exactly the reflect kinds those keywords govern (Applies evaluated for every kind by constant propagation); ROUTING — the object validator is executed on its control flow only, forking on structural atoms (recv.AdditionalProperties==nil, .Allows, .Schema==nil, has(recv.Properties,K), the results of the pattern matcher), methods of the receiver inlined: in every one of the ≈240 consistent configurations that reach the normal return, the generic member (K,V) of the instance is handed to the pattern matcher (which validates it against every matching pattern schema), and a member that is neither declared nor matched is validated against additionalProperties when that is a schema (exact over configurations: two edits that are each behaviour-preserving but together leave a configuration uncovered are reported, each one alone is not), additionalProperties:false raises 'not allowed' exactly for undeclared, unmatched, non-special names; the same enumeration for the array validator: items-as-schema validates every element, items-as-tuple validates position i against schema i, additionalItems (schema / false) applies exactly to the elements following a tuple and never without one; and for `required` (an error exactly for a name that is neither a member nor created from a default, the list being examined whenever it is not empty) and `dependencies` (schema dependency ⇒ the instance is validated against it, property dependency ⇒ an error exactly for each absent dependency, nothing for members that are absent or declare none); NILPATH — keyword groups whose Applies does not depend on the kind must also run for a nil instance (one genuine violation is a known finding); KEYWORD-GUARD — a constraint helper called from a Validate method is guarded only by the presence of its keyword, the type assertion and earlier outcomes, never by the instance value; ENUM-CONVERT — enum membership compares the instance converted to the member's type with that member; K-CONSISTENT/MEMBER-GUARD — every member (property, pattern/additional property, list/tuple/additional item) is validated against its schema under its own key and not filtered by its value or name; MAP-ORDER — no order-dependent early exit from map ranges in the schema validators; D-BOUND on the element loops (via C06); ONESHOT-EQ — AgainstSchema is NewSchemaValidator(...).Validate plus HasErrors; POOL-CTOR — no constraint field of a recycled validator is left from a previous schema; RES-LINEAR — no verdict is read from, merged from or released twice through a result that already went back to the pool (directly or through a variable that aliases it, e.g. the best-failure of anyOf/oneOf), which is what turns a later, unrelated validation into a wrong verdict; RESULT-ALGEBRA — every merge helper (Merge, mergeForField, mergeForSlice, MergeAsErrors…) applies the documented effects for every non-nil operand on every path, so the errors of a member or item can never be lost on the way to the verdict (for instance when schemata recording is switched off). POOL-API: the shared empty result is refused by the result redeemer. KEY-EXEMPTION, EXACT-ARITH (multipleOf through a tolerance predicate) and the enum clauses: violated on the current tree, listed as known findings with failing inputs. ERR-VALUE (no value used on the failure side of its error / ok companion); DEAD-TAIL (no early exit behind a condition constant by construction); MULTIPLE-TABLE (multipleOf exact on 247 dyadic cases); COUNTING applied-when-nonempty (each composition keyword runs from one member on).",
 		NotDecided:  "Whether each keyword's predicate agrees with draft 4 (oneOf counting, integer-vs-number, enum equality across numeric types, regexp search semantics, format registries…): value-level, out of reach of static analysis; the checks decide that no keyword group is skipped, mis-keyed or conditioned on the wrong thing.",
 		Assumptions: []string{trustDeps},
@@ -232,13 +232,13 @@ func init() {
 
 func init() {
 	Properties["C18"] = PropSpec{
-		Rules:       []Rule{RefBlind, Schemata, SchemataModel, KConsistent, ResultAlgebra, ResLinear, GuardScope, ObjectRouting, SliceRouting, KeywordRouting},
+		Rules:       []Rule{DeadTailIn("defaulter.go", "result.go", "object_validator.go", "slice_validator.go", "schema.go", "schema_props.go"), RefBlind, Schemata, SchemataModel, KConsistent, ResultAlgebra, ResLinear, GuardScope, ObjectRouting, SliceRouting, KeywordRouting},
 		Explanation: "SCHEMATA/POST: the per-field and per-item schemata lists of a Result only receive appends to themselves or fresh slices (never the list of a result about to be recycled), every recorded entry holds cloned schemata, an absent member is recorded exactly on (absent, Default != nil, !skipSchemataResult), every schema-validation result — also for nil data — carries its schema as root schemata; ApplyDefaults has a single write, key.Object()[key.Field()] = s.Default, confined to members found absent by a comma-ok lookup of the same object and field, s ranging over that member's schemata with Default != nil, over every recorded member. K-CONSISTENT: each member's result is merged under (container, that member's key). RESULT-ALGEBRA/RES-LINEAR: merges apply their effects once and results are not used after release. Loop exhaustion: the member loop of ApplyDefaults is left only by exhaustion. Copy clause: ApplyDefaults inserts a deep copy of the default (it inserted the schema's own map/slice: fixed). SCHEMATA-MODEL (Append / Clone / Len / Slice of the schemata container decided on a symbolic heap over all shapes); REF-BLIND success edge.",
 		NotDecided:  "Which anyOf/oneOf alternative's schemata survive, correctness at depth and that no other member appears beyond the single-write shape: value-level.",
 		Assumptions: []string{trustDeps},
 	}
 	Properties["C19"] = PropSpec{
-		Rules:       []Rule{OptionsKept, Schemata, SchemataModel, KConsistent, ResultAlgebra, ResLinear, GuardScope, ObjectRouting, SliceRouting, KeywordRouting},
+		Rules:       []Rule{DeadTailIn("prune.go", "result.go", "object_validator.go", "slice_validator.go", "schema.go", "schema_props.go"), OptionsKept, Schemata, SchemataModel, KConsistent, ResultAlgebra, ResLinear, GuardScope, ObjectRouting, SliceRouting, KeywordRouting},
 		Explanation: "SCHEMATA/POST as for C18, and for pruning: pruneObject's single write is delete(obj, field) with field ranging over obj, decided by FieldSchemata()[NewFieldKey(obj, field)] of the same object and member; prune recurses into every map value and slice element. K-CONSISTENT: the result of validating a member (declared, pattern or additional property, tuple / additional / list item) is filed under (container, that member's own key or index), so a described member has schemata and an undescribed one has none. Loop exhaustion: the traversal loops of prune / pruneObject are left only by exhaustion; recursion depends only on the element's dynamic type. SCHEMATA-MODEL.",
 		NotDecided:  "As C18; idempotence of pruning.",
 		Assumptions: []string{trustDeps},
@@ -247,7 +247,7 @@ func init() {
 
 func init() {
 	Properties["C09"] = PropSpec{
-		Rules:       []Rule{DeadTail, Traverse, ResetBetween, ExpandRoot, CloneFaithful, ValueOptions, RuleSeq, GuardScope, ArgRole, KeywordPosition, Keywords("ParamValidator", simpleKeywords, "param_ctor_calls"), Keywords("HeaderValidator", simpleKeywords, "header_ctor_calls"), Keywords("itemsValidator", simpleKeywords, "items_ctor_calls")},
+		Rules:       []Rule{DeadTailIn("default_validator.go", "example_validator.go", "helpers.go"), Traverse, ResetBetween, ExpandRoot, CloneFaithful, ValueOptions, RuleSeq, GuardScope, ArgRole, KeywordPosition, Keywords("ParamValidator", simpleKeywords, "param_ctor_calls"), Keywords("HeaderValidator", simpleKeywords, "header_ctor_calls"), Keywords("itemsValidator", simpleKeywords, "items_ctor_calls")},
 		Explanation: "TRAVERSE: (a) the recursive descent of both walkers calls itself on schema.Items.Schema, each of Items.Schemas, each of Properties, AdditionalProperties.Schema and each of AllOf, with a path that extends the current one and contains the loop key/index (so members get distinct visited-set keys), merged with Merge; the schema's own default/example is validated by a validator built from that schema; (b) the default and the example walker are compared step by step (callee, argument provenance, guard conditions, path shape): every traversal step of the default walker exists in the example walker under the same guards; (c) a leaf verdict on a default enters as Merge (error), on an example as MergeAsWarnings, and both walkers are merged with Merge in Validate (RULE-SEQ); (d) the skip predicate isVisited may answer true only on the found edge of the lookup of that path; RESET-BETWEEN: every top-level walk (per parameter, per response schema, per definition) starts from an emptied visited set on every path, loops included, so that a path of one walk can never be taken for a visited path of another. EXPAND-ROOT: every resolution/expansion request is given the validator's document or the root the function received, never nil. CLONE-FAITHFUL: schemas are never copied through encoding/gob (it drops pointers to zero values). VALUE-OPTIONS: validators judging default/example values take the walker's own options, a private copy with the swagger schema-shape switches stored false. TRAVERSE both ways (every recursive step of the example walker exists in the default walker and vice versa; both descend into patternProperties and additionalItems); DEAD-TAIL.",
 		NotDecided:  "That each leaf validation is right (C01/C16); the behaviour of the recursion cut-off on circular specifications. Found by probing, not decided: further cases of the suffix heuristic and of dotted-path collisions inside one schema; response examples for media types other than application/json; unreferenced shared parameters/responses are not walked.",
 		Assumptions: []string{trustDeps},
